@@ -177,14 +177,36 @@ pub struct ProbeErr(pub u64);
 pub struct Shared {
     counter: AtomicU64,
     log: Mutex<Vec<Rec>>,
+    /// words drawn by the children of the inner generations a nesting child maker steps (island model)
+    inner_words: Mutex<Vec<u64>>,
     /// absolute call numbers that fail
     fail_at: Mutex<BTreeSet<u64>>,
 }
 
 /// The generation owns its child maker and offers no accessor, so the probe's
 /// bookkeeping lives behind an `Arc` of which the oracle keeps a clone.
+/// child maker of the inner generations: draws one word per child
+pub struct InnerMaker {
+    shared: std::sync::Arc<Shared>,
+}
+impl Composable for InnerMaker {}
+impl<'a> Operator<&'a Vec<Child>> for InnerMaker {
+    type Output = Child;
+    type Error = ProbeErr;
+    fn apply<R: Rng + ?Sized>(&self, _: &'a Vec<Child>, rng: &mut R) -> Result<Child, ProbeErr> {
+        let word = rng.next_u64();
+        if let Ok(mut w) = self.shared.inner_words.lock() {
+            w.push(word);
+        }
+        Ok(Child { call: 0, word, key: word })
+    }
+}
+
 pub struct Maker<P> {
     shared: std::sync::Arc<Shared>,
+    /// 0: plain. k > 0: every k-th call first steps a small generation of its own (serially for odd k, in parallel
+    /// for even k) - an island model, generation steps nested inside the child maker of a generation step
+    nested: u8,
     delays: Vec<u8>,
     /// 0: every child gets a key of its own; m > 0: key = word % m, so set-like populations merge children
     modulus: u64,
@@ -199,6 +221,11 @@ impl<'a, P: PopLike> Operator<&'a P> for Maker<P> {
 
     fn apply<R: Rng + ?Sized>(&self, pop: &'a P, rng: &mut R) -> Result<P::Ind, ProbeErr> {
         let call = self.shared.counter.fetch_add(1, Ordering::SeqCst);
+        if self.nested > 0 && call % u64::from(self.nested) == 0 {
+            let island: Vec<Child> = (0..3).map(|i| Child { call: 0, word: i, key: i }).collect();
+            let mut inner = Generation::new(InnerMaker { shared: self.shared.clone() }, island);
+            let _ = if self.nested % 2 == 1 { inner.serial_next() } else { inner.par_next() };
+        }
         let word = rng.next_u64();
         let d = self.delays.get(call as usize % self.delays.len().max(1)).copied().unwrap_or(0);
         match d {
@@ -241,6 +268,9 @@ pub struct Case {
     /// see `Maker::modulus`
     #[serde(default)]
     pub modulus: u8,
+    /// see `Maker::nested`
+    #[serde(default)]
+    pub nested: u8,
 }
 
 pub const POOL_SIZES: [usize; 6] = [1, 2, 3, 4, 8, 16];
@@ -278,9 +308,11 @@ fn oracle_for<P: PopLike>(c: &Case, probe: &mut Probe) -> Result<(), Fail> {
         counter: AtomicU64::new(0),
         log: Mutex::new(vec![]),
         fail_at: Mutex::new(BTreeSet::new()),
+        inner_words: Mutex::new(vec![]),
     });
     let maker: Maker<P> = Maker {
         shared: shared.clone(),
+        nested: c.nested,
         delays: c.delays.clone(),
         modulus: u64::from(c.modulus),
         _p: std::marker::PhantomData,
@@ -347,6 +379,19 @@ fn oracle_for<P: PopLike>(c: &Case, probe: &mut Probe) -> Result<(), Fail> {
                 "round {ri}: call {} drew the random word {:#x} that an earlier child (this or an earlier round) had already drawn - children must be made with their own live randomness ({} individuals, {threads} threads)",
                 r.call,
                 r.word,
+                old.len()
+            );
+        }
+        // children of the nested (island) generations draw their own words too
+        let inner: Vec<u64> = {
+            let mut w = shared.inner_words.lock().map_err(|_| Fail::new("harness/lock", "poisoned"))?;
+            std::mem::take(&mut *w)
+        };
+        for w in inner {
+            ensure!(
+                all_words.insert(w),
+                format!("{name}/children-share-randomness"),
+                "round {ri}: a child of a generation stepped inside the child maker drew the random word {w:#x} that another child (outer or inner, this or an earlier round) had already drawn - every child is made with its own live randomness ({} individuals, {threads} threads)",
                 old.len()
             );
         }
@@ -459,6 +504,9 @@ fn oracle_for<P: PopLike>(c: &Case, probe: &mut Probe) -> Result<(), Fail> {
     if c.size >= 128 {
         probe.label("population >= 128");
     }
+    if c.nested > 0 {
+        probe.label("generation steps nested inside the child maker");
+    }
     if max_threads >= 8 {
         probe.label(">= 8 threads");
     }
@@ -497,14 +545,15 @@ fn strategy() -> BoxedStrategy<Case> {
             prop_oneof![5 => Just(0u8), 1 => Just(1u8), 2 => Just(2u8), 1 => Just(3u8)].boxed()
         };
         let modulus = prop_oneof![2 => Just(0u8), 3 => 1u8..=8, 1 => any::<u8>()];
-        (Just(size), prop::collection::vec(round, 1..5), delays, kind, modulus)
+        let nested = if size <= 64 { prop_oneof![4 => Just(0u8), 1 => 1u8..5].boxed() } else { Just(0u8).boxed() };
+        (Just(size), prop::collection::vec(round, 1..5), delays, kind, modulus, nested)
     })
-    .prop_map(|(size, rounds, delays, kind, modulus)| Case { size, rounds, delays, kind, modulus })
+    .prop_map(|(size, rounds, delays, kind, modulus, nested)| Case { size, rounds, delays, kind, modulus, nested })
     .boxed()
 }
 
 pub fn run(ctx: &mut Ctx) {
-    ctx.rule = "population sizes {0, 1, 2..64, 127..300, 1000, 2047..6000} held in a Vec, VecDeque, BTreeSet or HashSet, or (up to 300) a Vec of individuals with 5000 / 40000 / 70000 bytes of inline payload (the set kinds merge children with equal keys, so a step can shrink the population and the next step must make as many children as the population then has); 1-4 consecutive generation steps per case on one Generation value, each serial or parallel inside a rayon pool of 1/2/3/4/8/16 threads; the child maker is a probe that records the address and a hash of the population it is shown, draws one word from the generator it is handed, yields/sleeps according to a generated delay script and fails at generated call positions. Oracle after Ok: the new population consists of exactly population-size children produced from the previous population - those made in this round plus, at most, children left over from failed attempts since the population last changed - in order of production for serial steps (key set for the merging kinds), and has the same size unless it merges, every call saw the old population, all drawn words pairwise distinct within and across rounds; after Err: the error is one the probe raised and the population is unchanged. non-trivial = size >= 2 and (a failing child or >= 2 threads); distinct by JSON encoding".into();
+    ctx.rule = "population sizes {0, 1, 2..64, 127..300, 1000, 2047..6000} held in a Vec, VecDeque, BTreeSet or HashSet, or (up to 300) a Vec of individuals with 5000 / 40000 / 70000 bytes of inline payload (the set kinds merge children with equal keys, so a step can shrink the population and the next step must make as many children as the population then has); 1-4 consecutive generation steps per case on one Generation value, each serial or parallel inside a rayon pool of 1/2/3/4/8/16 threads; in a fifth of the small cases the child maker first steps a small generation of its own on some calls (island model: nested steps, serial or parallel, whose children must draw fresh words too); the child maker is a probe that records the address and a hash of the population it is shown, draws one word from the generator it is handed, yields/sleeps according to a generated delay script and fails at generated call positions. Oracle after Ok: the new population consists of exactly population-size children produced from the previous population - those made in this round plus, at most, children left over from failed attempts since the population last changed - in order of production for serial steps (key set for the merging kinds), and has the same size unless it merges, every call saw the old population, all drawn words pairwise distinct within and across rounds; after Err: the error is one the probe raised and the population is unchanged. non-trivial = size >= 2 and (a failing child or >= 2 threads); distinct by JSON encoding".into();
     ctx.assumptions.push("interleavings are perturbed (pool size x delay script), not enumerated: rayon's scheduler is not under the harness's control".into());
     let n = ctx.tier.pick(12_000u32, 400_000);
     let saved = ctx.threads;
